@@ -46,10 +46,18 @@ package usage
 //@ site usage.indexValue($av, $k, $n)
 //@   assert [C19:webhook-key-coordinates] $av == u.GetAPIVersion() && $k == u.GetKind() && $n == u.GetName()
 
+// Every Usage that names its used resource is filed in the index, under the key built from its
+// own coordinates - whatever the group (the core group "" included): a Usage missing from the
+// index is a resource the webhook lets go.
 //@ func usage.SetupWebhookWithManager$1
 //@ props C19
+//@ requires typeis(obj, *v1beta1.Usage) && as(obj, *v1beta1.Usage) != nil
+//@ ghost indexed bool = false
+//@ let $key = result usage.indexValue
 //@ optional site usage.indexValue($av, $k, $n)
 //@   assert [C19:index-key-coordinates] $av == u.Spec.Of.APIVersion && $k == u.Spec.Of.Kind && $n == u.Spec.Of.ResourceRef.Name
+//@   update indexed = true
+//@ ensures [C19:every-usage-naming-its-resource-is-indexed-under-its-own-key] (as(obj, *v1beta1.Usage).Spec.Of.ResourceRef != nil && len(as(obj, *v1beta1.Usage).Spec.Of.ResourceRef.Name) > 0) ==> (indexed && len(result) == 1 && result[0] == $key)
 
 //@ func usage.indexValue
 //@ props C19
